@@ -76,7 +76,9 @@ PLAN = {
     },
     "C10": {
         "level": "exploration",
-        "parts": [part("en_idl", "c10", q=16, t=16, tq=300, tt=2400)],
+        "pkg": ["vh", "vproc"],
+        "needs_repo_bins": ["varlink-cli"],
+        "parts": [part("en_idl", "c10", q=16, t=16, tq=300, tt=2400), part("procx", "c10", q=2, t=4, tq=300, tt=600)],
         "assumptions": ["member order is compared per kind (types, methods, errors): that is all the data structure records"],
     },
     "C11": {
